@@ -50,6 +50,7 @@ def verify_lemma(reg, lem, prefix=""):
             res.params.append((pn, v))
             if v.k == "ref":
                 ctx.param_refs.append(v.z)
+                ctx.facts.append(v.z > 0)
         invs = {}
         # loop invariants inside lemma bodies: `invariant(...)` calls at the head of the loop body
         fr = _new_frame(uid, lem.modname, lem.body, st.env, lem.loops, invs, lem.sidecar_globals)
@@ -106,8 +107,10 @@ def verify_function(reg, contract, prefix=""):
             res.params.append((pn, v))
             if v.k == "ref":
                 ctx.param_refs.append(v.z)
+                ctx.facts.append(v.z > 0)
         fr = _new_frame(uid, fsrc.module, body, st.env, fsrc.loops, contract.invariants, None, fsrc.cls)
         fr.contract = contract
+        fr.ghost_globals = contract.sidecar_globals
         ctx.frames.append(fr)
         entry = st.fork()
         fr.old_state = entry
@@ -125,10 +128,15 @@ def verify_function(reg, contract, prefix=""):
         for (txt, node) in contract.requires:
             ctx.assume(st, spec_eval(st, node))
         ctx.verifying_fq_transparent = None
+        ex.run_ghost(st, "entry")
         ex.run_block(st, body)
         outs = list(fr.returns)
         if not st.dead:
             outs.append((st, NONE))
+        for (o, v) in outs:
+            o.env["result"] = v
+            o.defd["result"] = z3.BoolVal(True)
+            ex.run_ghost(o, "exit")
         res.returns = len(outs)
         raise_conds = {}
         for (name, cls, cond) in contract.raises:
@@ -185,12 +193,12 @@ def check_frame(ex, ctx, contract, entry, o, fsrc):
     env = dict(entry.env)
     ctx.frames.append(contract_frame(contract, entry, contract.sidecar_globals))
     try:
-        mods = eval_modifies(ex, entry, contract, env)
+        mods = eval_modifies(ex, entry, contract, env, with_cond=True)
     finally:
         ctx.frames.pop()
     by_field = {}
-    for (refz, field) in mods:
-        by_field.setdefault(field, []).append(refz)
+    for (refz, field, cond) in mods:
+        by_field.setdefault(field, []).append((refz, cond))
     for f, arr in o.heap.items():
         a0 = entry.heap.get(f)
         if a0 is None:
@@ -198,7 +206,8 @@ def check_frame(ex, ctx, contract, entry, o, fsrc):
         if arr.eq(a0):
             continue
         allowed = by_field.get(f, [])
-        expect = a0
-        for r in allowed:
-            expect = z3.Store(expect, r, arr[r])
-        ctx.oblige(o, arr == expect, "frame", fsrc.node, "heap array %s changes only where the contract's modifies allows" % f)
+        # objects allocated during the call (negative references) are not part of the caller's frame
+        x = ctx.fresh("frame_x")
+        conds = [x > 0] + [(x != r) if c is None else z3.Or(x != r, z3.Not(c)) for (r, c) in allowed]
+        ctx.oblige(o, z3.Implies(z3.And(*conds), arr[x] == a0[x]), "frame", fsrc.node,
+                   "heap array %s changes only where the contract's modifies allows" % f)
